@@ -197,4 +197,12 @@ def WS (exact : Bool) (S : List Name) : Expr → Bool
 
 def dom (ρ : Env) : List Name := ρ.map (·.1)
 
+/-- no inline function expression occurs in `e` -/
+def noFn : Expr → Bool
+  | .int _ | .var _ | .empty | .dt _ _ => true
+  | .paren e | .tzOf e | .call0 e => noFn e
+  | .seq a b | .add a b | .sub a b | .eq a b | .call a b => noFn a && noFn b
+  | .letE _ e b | .forE _ e b | .someE _ e b | .everyE _ e b => noFn e && noFn b
+  | .fn _ _ => false
+
 end EPV.Scope
